@@ -79,6 +79,23 @@ class AliasedQuery(Selectable):
             return self.name
         return self.query.get_sql(ctx)
 
+    @builder
+    def replace_table(  # type:ignore[return]
+        self, current_table: "Table" | None, new_table: "Table" | None
+    ) -> "Self":
+        """
+        Replaces all occurrences of the specified table with the new table in the aliased query.
+
+        :param current_table:
+            The table to be replaced.
+        :param new_table:
+            The table to replace with.
+        :return:
+            A copy of the aliased query with the tables replaced.
+        """
+        if self.query is not None:
+            self.query = self.query.replace_table(current_table, new_table)  # type:ignore[operator]
+
     def __eq__(self, other: Any) -> bool:
         return isinstance(other, AliasedQuery) and self.name == other.name
 
@@ -592,6 +609,30 @@ class _SetOperation(Selectable, Term):  # type:ignore[misc]
             (SetOperation.minus, other)  # type:ignore[list-item]
         ]
 
+    @builder
+    def replace_table(  # type:ignore[return]
+        self, current_table: "Table" | None, new_table: "Table" | None
+    ) -> "Self":
+        """
+        Replaces all occurrences of the specified table with the new table in every query of the set operation.
+
+        :param current_table:
+            The table to be replaced.
+        :param new_table:
+            The table to replace with.
+        :return:
+            A copy of the set operation with the tables replaced.
+        """
+        self.base_query = self.base_query.replace_table(current_table, new_table)
+        self._set_operation = [
+            (set_operation, query.replace_table(current_table, new_table))
+            for set_operation, query in self._set_operation
+        ]
+        self._orderbys = [
+            (field.replace_table(current_table, new_table), orient)
+            for field, orient in self._orderbys
+        ]
+
     def __add__(self, other: Selectable) -> "Self":  # type:ignore[override]
         return self.union(other)
 
@@ -928,7 +969,15 @@ class QueryBuilder(Selectable, Term):  # type:ignore[misc]
             A copy of the query with the tables replaced.
         """
         self._from = [
-            new_table if table == current_table else table  # type:ignore[misc]
+            (
+                new_table  # type:ignore[misc]
+                if table == current_table
+                else (
+                    table.replace_table(current_table, new_table)
+                    if isinstance(table, (QueryBuilder, _SetOperation))
+                    else table
+                )
+            )
             for table in self._from
         ]
         if self._insert_table == current_table:
@@ -937,7 +986,7 @@ class QueryBuilder(Selectable, Term):  # type:ignore[misc]
             self._update_table = new_table
 
         self._with = [
-            alias_query.replace_table(current_table, new_table)  # type:ignore[operator]
+            alias_query.replace_table(current_table, new_table)
             for alias_query in self._with
         ]
         self._selects = [select.replace_table(current_table, new_table) for select in self._selects]
@@ -964,6 +1013,34 @@ class QueryBuilder(Selectable, Term):  # type:ignore[misc]
             for orderby in self._orderbys
         ]
         self._joins = [join.replace_table(current_table, new_table) for join in self._joins]
+        self._updates = [
+            (
+                field.replace_table(current_table, new_table),
+                value.replace_table(current_table, new_table),
+            )
+            for field, value in self._updates
+        ]
+        self._on_conflict_fields = [
+            field.replace_table(current_table, new_table) if isinstance(field, Term) else field
+            for field in self._on_conflict_fields
+        ]
+        self._on_conflict_do_updates = [
+            (
+                field.replace_table(current_table, new_table),
+                value.replace_table(current_table, new_table) if value is not None else None,
+            )
+            for field, value in self._on_conflict_do_updates
+        ]
+        self._on_conflict_wheres = (
+            self._on_conflict_wheres.replace_table(current_table, new_table)
+            if self._on_conflict_wheres
+            else None
+        )
+        self._on_conflict_do_update_wheres = (
+            self._on_conflict_do_update_wheres.replace_table(current_table, new_table)
+            if self._on_conflict_do_update_wheres
+            else None
+        )
 
         if current_table in self._select_star_tables:
             self._select_star_tables.remove(current_table)
@@ -1869,7 +1946,8 @@ class Join:
         :return:
             A copy of the join with the tables replaced.
         """
-        self.item = self.item.replace_table(current_table, new_table)
+        if self.item == current_table:
+            self.item = new_table  # type:ignore[assignment]
 
 
 class JoinOn(Join):
